@@ -98,10 +98,37 @@ fn one_case(_ctx: &Ctx, case: u64, r: &mut Rng, rep: &mut Report) {
             Some(o.env.clone())
         })
     };
-    let n = r.range(3, 8);
+    // 1 case in 3 (v2) starts with a prelude that leaves packs mixing uncompressed (37-byte) and compressed
+    // (41-byte) header records: content stored without compression, compression switched on, more content, then a
+    // fast repack of everything into larger packs
+    let mut queue: std::collections::VecDeque<Cmd> = std::collections::VecDeque::new();
+    if h.cfg.version == 2 && r.chance(1, 3) {
+        let big = ByteSize(r.range(3000, 60_000));
+        queue.push_back(Cmd::ApplyConfig { opts: ConfigOptions::default().set_compression(0).set_datapack_size(big).set_treepack_size(big) });
+        h.time += 100;
+        queue.push_back(Cmd::Backup { model: h.model.clone(), force: true, time: h.time, dry_run: false });
+        queue.push_back(Cmd::ApplyConfig { opts: ConfigOptions::default().set_compression(*r.pick(&[1, 3, -3])) });
+        for _ in 0..r.range(1, 3) {
+            let k = r.pick(&ALL_EDITS).clone();
+            let _ = apply_edit(r, &mut h.model, &k, &h.tp);
+        }
+        h.time += 100;
+        queue.push_back(Cmd::Backup { model: h.model.clone(), force: true, time: h.time, dry_run: false });
+        let mut s = PruneSpec::default_safe();
+        s.max_unused = Limit::Pct(0);
+        s.max_repack = Limit::Unlimited;
+        s.repack_all = true;
+        s.fast_repack = true;
+        s.instant_delete = r.chance(1, 2);
+        queue.push_back(Cmd::Prune { spec: s });
+    }
+    let n = r.range(3, 8) + queue.len() as u64;
     let mut hist = Vec::new();
     for _ in 0..n {
-        let cmd = producers(r, &mut h, &other);
+        let cmd = match queue.pop_front() {
+            Some(c) => c,
+            None => producers(r, &mut h, &other),
+        };
         hist.push(cmd.name());
         h.uni.clear_log();
         let res = cmd.run(&h.env);
@@ -124,6 +151,13 @@ fn one_case(_ctx: &Ctx, case: u64, r: &mut Rng, rep: &mut Report) {
         }
         if new_packs > 0 {
             rep.class(format!("{}/{}", cmd.kind(), if h.cfg.version == 2 { "v2" } else { "v1" }));
+            if let Ok(v) = index_view(&rk, &st) {
+                let mixed = v.packs.values().filter(|p| p.blobs.iter().any(|b| b.uncompressed_length.is_some()) && p.blobs.iter().any(|b| b.uncompressed_length.is_none())).count();
+                rep.max("max_packs_mixing_compressed_and_uncompressed_blobs", mixed as u64);
+                if mixed > 0 {
+                    rep.class(format!("{}/mixed-header-records", cmd.kind()));
+                }
+            }
         }
     }
     // index rebuild: remove subsets of index files, repair, compare
@@ -213,7 +247,7 @@ pub fn run(ctx: &Ctx) -> (Report, Meta) {
     let rep = run_cases(ctx, n, &one_case);
     let meta = Meta {
         level: "exploration",
-        rule: "case = history of 3-8 pack-producing commands (backup, prune with repack / repack-all / fast / repack-uncompressed, copy from a repository with another key and config, merge, rewrite, config changes of pack size and compression) on a generated configuration; after EVERY command every pack file in storage is parsed by the harness's independent decoder: name = SHA-256, trailer length field, 37/41-byte records, blob order/offsets/lengths/types == index entries, every blob decrypts, decompresses to the recorded length and hashes to its id, file size == sum == index size. Then all subsets (<= 4 index files, sampled above) of index files are removed, repair_index runs, and check(read_data) must be clean, every snapshot must read back identically and the rebuilt index must agree with the packs. distinct_nontrivial = distinct (producer kind, repo version) that wrote packs / rebuild classes".to_string(),
+        rule: "case = history of 3-8 pack-producing commands (backup, prune with repack / repack-all / fast / repack-uncompressed, copy from a repository with another key and config, merge, rewrite, config changes of pack size and compression; one v2 case in three starts with a prelude that ends in packs mixing compressed and uncompressed blobs) on a generated configuration; after EVERY command every pack file in storage is parsed by the harness's independent decoder: name = SHA-256, trailer length field, 37/41-byte records, blob order/offsets/lengths/types == index entries, every blob decrypts, decompresses to the recorded length and hashes to its id, file size == sum == index size. Then all subsets (<= 4 index files, sampled above) of index files are removed, repair_index runs, and check(read_data) must be clean, every snapshot must read back identically and the rebuilt index must agree with the packs. distinct_nontrivial = distinct (producer kind, repo version) that wrote packs / rebuild classes".to_string(),
         exhaustive: false,
         assumptions: vec!["subset enumeration is complete only up to 4 index files per repository".to_string()],
     };
